@@ -314,8 +314,6 @@ static void STRUCTURE##_clean_input(struct upipe *upipe)                    \
     STRUCTURE##_unblock_input(upipe);                                       \
     struct uchain *uchain, *uchain_tmp;                                     \
     ulist_delete_foreach (&s->UREFS, uchain, uchain_tmp) {                  \
-        upipe_dbg_va(upipe, "deleting still-born uref %p",                  \
-                     uref_from_uchain(uchain));                             \
         ulist_delete(uchain);                                               \
         uref_free(uref_from_uchain(uchain));                                \
     }                                                                       \
